@@ -152,12 +152,12 @@ class HttpConn:
         self.sock = socket.socket(self.fam, socket.SOCK_STREAM)
         self.sock.setsockopt(socket.IPPROTO_TCP, socket.TCP_NODELAY, 1)
         self.sock.bind((src_ip, 0))
-        self.sock.settimeout(5.0)
+        self.sock.settimeout(5.0 * load_factor())
         self.sock.connect(server)
         if USE_TLS:
             # every sendall() below becomes its own TLS record, so request segmentation is preserved
             self.sock = tls_wrap(self.sock)
-            self.sock.settimeout(5.0)
+            self.sock.settimeout(5.0 * load_factor())
         self.src_ip = src_ip
         self.quiet = quiet
         self.buf = b""
